@@ -169,6 +169,55 @@ void h_json_roundtrip(void) {
   __CPROVER_assert(r == JSMN_SUCCESS && tok[0].start == 1 && (size_t)tok[0].end == 1 + e.len,
                    "O_closed: '\"' + jsonEscape(s) + '\"' is tokenised by jsmn as one string token whose extent is exactly jsonEscape(s)");
 }
+/* Data::toJSON, slices (json_extract.extract_tojson_slices): what the writer emits for an atom / for an object key is JSON the
+   real tokeniser reads back as one string token whose unescaped content is the atom / the key */
+static int tj_string_at(const vstr *r, size_t p, const vstr *expect) {
+  /* r->b[p] == '"' ... closing quote; the content between them unescapes to *expect; returns index after the closing quote or 0 */
+  jsmn_parser ps; jsmntok_t tok[1];
+  ps.pos = (unsigned)p; ps.toknext = 0; ps.toksuper = -1;
+  if (jsmn_parse_string(&ps, r->b, tok, 1) != JSMN_SUCCESS) return 0;
+  if ((size_t)tok[0].start != p + 1 || tok[0].end < tok[0].start || (size_t)tok[0].end >= r->len || r->b[tok[0].end] != '"') return 0;
+  vstr inner = vstr_substr(r, (size_t)tok[0].start, (size_t)(tok[0].end - tok[0].start));
+  vstr u = json_unescape(inner);
+  if (!vstr_eq(&u, expect)) return 0;
+  return tok[0].end + 1;
+}
+void h_tojson_atom(void) {
+  vstr s = nondet_vstr(L);
+  int verbatim = nondet_bool();
+  vstr r = tojson_atom(verbatim, s);
+  __CPROVER_assert(0, "CANARY returns");
+  if (verbatim) {
+    __CPROVER_assert(r.len >= 2 && r.b[0] == '"' && (size_t)tj_string_at(&r, 0, &s) == r.len,
+                     "O_tojson: a string atom is written as exactly one JSON string token whose unescaped content is the atom");
+  } else if (s.len > 0) {
+    __CPROVER_assert(vstr_eq(&r, &s), "O_tojson: a non-string atom (number, true/false, expression) is written as it is");
+  } else {
+    vstr n = vstr_lit("null");
+    __CPROVER_assert(vstr_eq(&r, &n), "O_tojson: an empty non-string value is written as null");
+  }
+}
+void h_tojson_key(void) {
+  vstr key = nondet_vstr(L);
+  vstr sep = nondet_bool() ? vstr_lit(", ") : vstr_empty();
+  vstr indent = vstr_empty();
+  int depth = nondet_bool() ? 1 : 2;
+  for (int i = 0; i < depth; i++) vstr_append_lit(&indent, "  ");
+  size_t longest = key.len + (nondet_bool() ? 0 : 2);
+  vstr pad = vstr_empty();
+  for (size_t i = 0; i < longest; i++) vstr_push(&pad, ' ');
+  vstr r = tojson_key(sep, indent, pad, longest, key);
+  __CPROVER_assert(0, "CANARY returns");
+  size_t p = 0;
+  while (p < r.len && (r.b[p] == ',' || r.b[p] == ' ' || r.b[p] == '\n')) p++;
+  __CPROVER_assert(p < r.len && r.b[p] == '"', "O_tojson: an object key is preceded by separator / white space only and starts with a quote");
+  size_t q = (p < r.len) ? (size_t)tj_string_at(&r, p, &key) : 0;
+  __CPROVER_assert(q != 0, "O_tojson: an object key is written as one JSON string token whose unescaped content is the key");
+  if (q != 0) {
+    __CPROVER_assert(q < r.len && r.b[q] == ':', "O_tojson: the key is followed by a colon");
+    for (size_t i = q + 1; i < r.len; i++) __CPROVER_assert(r.b[i] == ' ', "O_tojson: only padding follows the colon");
+  }
+}
 /* jsonUnescape on arbitrary input (escape at the very end, unknown escapes) */
 void h_json_unescape_any(void) {
   vstr s = nondet_vstr(L);
